@@ -7,7 +7,7 @@ import (
 )
 
 var c08StepKinds = []string{"Sprint", "SprintBytes", "Sprintf", "Sprintf", "Sprintf", "SprintfBytes", "Reflect", "ReflectField", "ReflectIfaceField", "Safe", "Iface", "Concat", "Concat",
-	"Join", "Join1", "JoinToSB", "JoinToPrinter", "SBPrint", "SBSnapshot", "SBPrintf", "PrintSB", "PrintPSB", "PrinterPrint", "PrinterPrintf",
+	"Join", "Join1", "JoinToSB", "JoinToPrinter", "JoinBytesToSB", "JoinSBsToPrinter", "SBPrint", "SBSnapshot", "SBPrintf", "PrintSB", "PrintPSB", "PrinterPrint", "PrinterPrintf",
 	"Slice", "Array", "ISlice", "Map", "IMap", "MapNaN", "MapArrKey", "MapMulti", "Struct", "StructPlus", "PStruct", "StructIface", "SharpV"}
 
 func genC08(rt *rapid.T) *C08Spec {
@@ -31,12 +31,14 @@ func genC08(rt *rapid.T) *C08Spec {
 			st.L0, st.L1, st.L2 = genText(rt, "l0", 3), genText(rt, "l1", 3), genText(rt, "l2", 3)
 		}
 		switch st.K {
-		case "Concat", "Join", "JoinToSB", "JoinToPrinter", "Slice", "Array", "ISlice", "MapMulti", "SBSnapshot", "Struct", "StructPlus", "PStruct", "StructIface", "SharpV":
+		case "Concat", "Join", "JoinToSB", "JoinToPrinter", "JoinBytesToSB", "JoinSBsToPrinter", "Slice", "Array", "ISlice", "MapMulti", "SBSnapshot", "Struct", "StructPlus", "PStruct", "StructIface", "SharpV":
 			st.Other = vc.genPrintSpec(rt, 1, false)
 		}
 		switch st.K {
-		case "Join", "Join1", "JoinToSB", "JoinToPrinter":
-			if rapid.Bool().Draw(rt, "safedelim") {
+		case "Join", "Join1", "JoinToSB", "JoinToPrinter", "JoinBytesToSB", "JoinSBsToPrinter":
+			if rapid.IntRange(0, 3).Draw(rt, "nodelim") == 0 {
+				st.Delim = &PrintS{HasFmt: true, Fmt: B("")} // no delimiter at all
+			} else if rapid.Bool().Draw(rt, "safedelim") {
 				st.Delim = &PrintS{HasFmt: true, Fmt: B(lit(genText(rt, "delim", 2)))}
 			} else {
 				st.Delim = vc.genPrintSpec(rt, 1, false)
